@@ -709,7 +709,7 @@ func cmdRun(args []string) int {
 		count  int
 		audit  bool
 	}
-	const auditM = 192 // run indices whose results are cross-checked against a differently ordered pass
+	const auditM = 384 // run indices whose results are cross-checked against a differently ordered pass
 	var batches [][]job
 	mk := func(bin string, race bool, total, nw, widBase int) []job {
 		var js []job
